@@ -3,6 +3,7 @@
   named cases of `StepCase` applies.  Every invariant proof in `Lemmas*.lean` starts from here.
 -/
 import Babylon.Exec.Model
+import Babylon.Exec.Tactics
 
 namespace Babylon.Exec
 
@@ -119,7 +120,6 @@ inductive StepCase (c : Cfg) (s : State) (t : Nat) : Lbl → State → Prop
         (setPc s t (.chk (.bal k) (s.l k).popIdx (!(s.l k).ready (s.l k).popIdx)))
   | bExit (hpc : s.pc t = .bStopping) : StepCase c s t .exit (setPc s t .exited)
 
-set_option maxHeartbeats 1000000 in
 theorem step_cases {c : Cfg} {s s' : State} {t : Nat} {lb : Lbl} (h : step c s t lb = some s') :
     StepCase c s t lb s' := by
   unfold step at h
@@ -128,8 +128,16 @@ theorem step_cases {c : Cfg} {s s' : State} {t : Nat} {lb : Lbl} (h : step c s t
   all_goals repeat' (split at h)
   all_goals try (simp only [reduceCtorEq] at h; done)
   all_goals (simp only [Option.some.injEq] at h; subst h)
-  all_goals (repeat (rcases ‹_ ∧ _› with ⟨_, _⟩))
+  all_goals split_ands
   all_goals subst_vars
-  all_goals (trace_state; sorry)
+  all_goals first
+    | (constructor <;> (first | assumption | (simp_all; done)))
+    | skip
+  all_goals first
+    | (apply StepCase.wExit; assumption)
+    | (apply StepCase.bExit; assumption)
+    | (apply StepCase.rejectIn <;> assumption)
+    | (apply StepCase.bSweepLd; assumption)
+    | (rename_i ok hok _ _; cases ok <;> first | (exact absurd rfl hok) | (apply StepCase.popCasFail <;> assumption))
 
 end Babylon.Exec
